@@ -350,6 +350,10 @@ pub fn stress(seed: u64, num_threads: usize, num_slots: usize, num_contents: i64
     type Cell = (Mutex<Option<SharedString>>, std::sync::atomic::AtomicUsize);
     let cells: Arc<Vec<Cell>> = Arc::new((0..num_threads / 2 + 1).map(|_| (Mutex::new(None), std::sync::atomic::AtomicUsize::new(0))).collect());
     let pair_stale = Arc::new(std::sync::atomic::AtomicUsize::new(0));
+    // burst phase: all threads intern the same fresh content at the same moment, hold it, compare buffers
+    let burst_arrive = Arc::new(std::sync::atomic::AtomicUsize::new(0));
+    let burst_ids: Arc<Vec<std::sync::atomic::AtomicUsize>> = Arc::new((0..num_threads).map(|_| std::sync::atomic::AtomicUsize::new(0)).collect());
+    let burst_split = Arc::new(std::sync::atomic::AtomicUsize::new(0));
     // a panic inside the code under test (it would also poison the table lock) must not stall the run: it is
     // recorded, the partner of a pair is released, and the worker keeps meeting the barriers
     let abort = Arc::new(std::sync::atomic::AtomicBool::new(false));
@@ -361,6 +365,9 @@ pub fn stress(seed: u64, num_threads: usize, num_slots: usize, num_contents: i64
         let bad = bad.clone();
         let cells = cells.clone();
         let pair_stale = pair_stale.clone();
+        let burst_arrive = burst_arrive.clone();
+        let burst_ids = burst_ids.clone();
+        let burst_split = burst_split.clone();
         handles.push(std::thread::spawn(move || {
             let mut rng = StdRng::seed_from_u64(seed * 1000 + t as u64);
             let mut slots: Vec<Option<SharedString>> = (0..num_slots).map(|_| None).collect();
@@ -399,6 +406,42 @@ pub fn stress(seed: u64, num_threads: usize, num_slots: usize, num_contents: i64
                 } else {
                     for s in slots.iter_mut() {
                         *s = None;
+                    }
+                    // burst: every thread interns the same content, fresh for this iteration, at the same moment and
+                    // keeps the handle until all have one: live handles with equal contents - one buffer (Dedup)
+                    {
+                        use std::sync::atomic::Ordering::SeqCst;
+                        let burst_n = (pair_drops / 50).min(30_000);
+                        let meet = |k: usize| -> bool {
+                            burst_arrive.fetch_add(1, SeqCst);
+                            while burst_arrive.load(SeqCst) < num_threads * k {
+                                if abort.load(SeqCst) {
+                                    return false;
+                                }
+                                std::thread::yield_now();
+                            }
+                            true
+                        };
+                        for k in 0..burst_n {
+                            if !meet(3 * k + 1) {
+                                return;
+                            }
+                            let h = SharedString::new(format!("burst-content-{}", k % 97).into_bytes());
+                            burst_ids[t].store(h.verif_buffer_id() as usize, SeqCst);
+                            if !meet(3 * k + 2) {
+                                return;
+                            }
+                            if t == 0 {
+                                let first = burst_ids[0].load(SeqCst);
+                                if burst_ids.iter().any(|x| x.load(SeqCst) != first) {
+                                    burst_split.fetch_add(1, SeqCst);
+                                }
+                            }
+                            if !meet(3 * k + 3) {
+                                return;
+                            }
+                            drop(h);
+                        }
                     }
                     let pair = t / 2;
                     if pair_drops > 0 && (t | 1) < num_threads {
@@ -488,6 +531,7 @@ pub fn stress(seed: u64, num_threads: usize, num_slots: usize, num_contents: i64
         };
         emit(out, &ep, json!({"op": "observe", "round": round, "final": round == rounds, "post": post,
                               "pair_stale": pair_stale.load(std::sync::atomic::Ordering::SeqCst),
+                              "burst_split": burst_split.load(std::sync::atomic::Ordering::SeqCst),
                               "data_errors": bad.lock().unwrap().clone()}));
         barrier.wait();
     }
